@@ -578,6 +578,29 @@ def b_eigensolve(V, cfg):
     return Setup(m, sigs, notes=["EigenSolve: A defined from free eigen-data (pre-image); LAPACK = oracle returning that data"])
 
 
+def b_eigensolve_cherm(V, cfg):
+    """Dense generalised EigenSolve with complex Hermitian A and complex Hermitian positive definite B = G G^H + I (B != B^T).
+    Used by the concrete finite-difference items only (floats, real LAPACK): the complex eigenvector contracts of a symbolic
+    Hermitian pencil are not decided by the solver in time."""
+    import pymoto as pym
+    n = 2
+    A = np.empty((n, n), dtype=complex)
+    G = np.empty((n, n), dtype=complex)
+    for i in range(n):
+        A[i, i] = V.real("A_%d_%d" % (i, i), default=1.0 + 1.5 * i)
+        for j in range(i + 1, n):
+            A[i, j] = complex(V.real("A_%d_%d_re" % (i, j), default=0.5), V.real("A_%d_%d_im" % (i, j), default=-0.75))
+            A[j, i] = np.conj(A[i, j])
+        for j in range(n):
+            G[i, j] = complex(V.real("G_%d_%d_re" % (i, j), default=0.25 * (i + 1) - 0.5 * j),
+                              V.real("G_%d_%d_im" % (i, j), default=0.375 * (j + 1) - 0.25 * i))
+    sigs = [pym.Signal("A", np.asfortranarray(A))]
+    if cfg.get("gen", True):
+        B = G @ G.conj().T + np.eye(n)
+        sigs.append(pym.Signal("B", np.asfortranarray(B)))
+    return Setup(pym.EigenSolve(sigs), sigs, notes=["concrete complex Hermitian pencil (finite-difference regression item)"])
+
+
 class _SingularAdjointOracle:
     """Stand-in for the per-mode solver of EigenSolve._sparse_eigvec_sens: the system (A - lambda_i B)^T v = r is singular
     by construction (and consistent, r being B-orthogonal to the mode); the real LU only succeeds through rounding.
@@ -650,7 +673,7 @@ def b_eigensolve_sparse(V, cfg):
                                               "systems answered by a contract oracle (any solution)"])
 
 
-BUILDERS = dict(eigensolve_sparse=b_eigensolve_sparse, eigensolve=b_eigensolve, einsum=b_einsum, mathgeneral=b_mathgeneral, concat=b_concat, scaling=b_scaling, complex=b_complex,
+BUILDERS = dict(eigensolve_cherm=b_eigensolve_cherm, eigensolve_sparse=b_eigensolve_sparse, eigensolve=b_eigensolve, einsum=b_einsum, mathgeneral=b_mathgeneral, concat=b_concat, scaling=b_scaling, complex=b_complex,
                 aggregation=b_aggregation, assemble=b_assemble, elemop=b_elemop, nodalop=b_nodalop,
                 filterconv=b_filterconv, densityfilter=b_densityfilter, overhang=b_overhang,
                 linsolve=b_linsolve, inverse=b_inverse, sysofeq=b_sysofeq, statcond=b_statcond)
@@ -796,6 +819,10 @@ def module_grid(tier):
     add("sysofeq", "n3-presonly", n=3, free=[1, 2], given="prescribed", mclass="symmetric")
     add("sysofeq", "n3-general", n=3, free=[0, 2], mclass="general")
     add("sysofeq", "n3-dense", n=3, free=[0, 2], mclass="symmetric", sparse=False)
+    add("eigensolve_cherm", "n2-complex-hermitian-generalised-concrete-fd", concrete_fd=True, gen=True,
+        symbols=["A_0_0", "A_1_1", "A_0_1_re", "A_0_1_im", "G_0_0_re", "G_0_1_im", "G_1_0_re", "G_1_1_im"])
+    add("eigensolve_cherm", "n2-complex-hermitian-standard-concrete-fd", concrete_fd=True, gen=False,
+        symbols=["A_0_0", "A_1_1", "A_0_1_re", "A_0_1_im"])
     add("eigensolve", "n2-general", max_paths=40, twin_abs=True)
     add("eigensolve", "n2-symmetric", sym=True, max_paths=40, twin_abs=True)
     add("eigensolve", "n2-general-lambda-only", seeded=[0], max_paths=40, twin_abs=True)
